@@ -232,6 +232,9 @@ def check(tree, rep, tier='quick', seed=0):
                 rep.notes.append(f'{y}: inference proposes a further gate {atom} = {val} [{mode}] (refusing readers {[".".join(k) for k, (c, _) in cl.items() if c == "S1"][:3]}); not in the frozen table')
             for (ln, amt) in sorted(have - {(g['line'], g['amount']) for g in data.get('limit_gates', []) if g['year'] == y}):
                 rep.notes.append(f'{y}: further limit-gate shape {ln} on {amt}; not in the frozen table')
+    # ---- R9.7 a line that refuses in sibling years refuses under the same conditions in each of them
+    from .c02 import year_siblings
+    year_siblings(an, rep, rule='R9.7', refusing_only=True, floor=40)
     # ---- R9.4 the signal is real
     core = get_core(tree)
     R.k3_not_implemented_raises(core, rep)
